@@ -1026,6 +1026,7 @@ Inductive is_pool : leaf -> Prop :=
 | P_Aff id nc m b : length b = length m -> is_pool (LAff id nc m b)
 | P_Sq id n b : length b = n -> is_pool (LSq id n b)
 | P_Cube id n : is_pool (LCube id n)
+| P_NSt id n b : length b = n -> is_pool (LNSt id n b)
 | P_Abs id n : is_pool (LAbs id n)
 | P_IP id w : is_pool (LIP id w)
 | P_FLin id w : is_pool (FLin id w)
@@ -1036,7 +1037,7 @@ Inductive is_pool : leaf -> Prop :=
 Lemma is_pool_ok l : is_pool l -> leaf_ok l.
 Proof.
   intros P; destruct P; constructor;
-    unfold LMat, LAff, LSq, LCube, LAbs, LIP, FLin, FQuad, FL1, NQuad;
+    unfold LMat, LAff, LSq, LCube, LNSt, LAbs, LIP, FLin, FQuad, FL1, NQuad;
     cbn [l_dom l_ran l_lin l_func l_fun dim];
     try (eexists; reflexivity); try discriminate; try reflexivity; try (intros; reflexivity).
   - intros x _. unfold mvec. apply map_length.
@@ -1045,6 +1046,7 @@ Proof.
   - intros x _. unfold vadd, mvec. rewrite vmap2_length, map_length, H. apply Nat.min_id.
   - intros x Hx. unfold vadd, vmul. rewrite !vmap2_length, Hx, H. rewrite !Nat.min_id. reflexivity.
   - intros x Hx. unfold vmul. rewrite !vmap2_length, Hx. rewrite !Nat.min_id. reflexivity.
+  - intros x Hx. unfold vadd, vmul. rewrite !vmap2_length. cbn [length]. rewrite Hx, H. lia.
   - intros x Hx. rewrite map_length. assumption.
   - intros _ c x _. cbn [vscal map]. f_equal. apply dot_vscal_r.
   - intros _ x y Hx Hy. cbn [vadd vmap2]. f_equal. apply dot_vadd_r. congruence.
